@@ -315,3 +315,22 @@ _PLANNER_NOTE = (" Planner model correspondence (gen c18m): the Lean model of th
 for _p in ("C13", "C18", "C19", "C11"):
     PROPS[_p]["gens"] = list(PROPS[_p]["gens"]) + ["c18m"]
     PROPS[_p]["explanation"] += _PLANNER_NOTE
+
+_PLANNER_THMS = (" Theorems over the planner model (DM/Props/Planner.lean, for every message, list, mode set, written offset and every"
+    " sequence of sort permutations): optimize_total - no assert!/unwrap/usize underflow/Frac debug assertion of the planner can fire and"
+    " the loop ends within len+1 iterations; plan_modes_enabled - every entry of the returned plan names an enabled mode;"
+    " plan_positions - positions never increase, stay within the message and end at 0; steps_linear - at most 216*(n+1)+5 step() calls;"
+    " live_le_36 - at most 36 live plans after every iteration.")
+for _p in ("C13", "C18", "C19", "C11"):
+    PROPS[_p]["lean"] = list(PROPS[_p].get("lean") or []) + ["DM.Props.Planner"]
+    PROPS[_p]["explanation"] += _PLANNER_THMS
+PROPS["C19"]["level_text"] = ("Partial proof: the step bound 216*(n+1)+5 and the 36-live-plan bound are theorems about the planner model for all inputs"
+    " (model tied to the code by correspondence on plan, cost, step counter and live maximum, and call by call for the pruning);"
+    " the instrumented counters of the implementation are checked against the same bounds on adversarial long inputs.")
+PROPS["C19"]["unproved"] = ["(the theorem is about the model; the implementation's counters are tied to it by correspondence only)"]
+PROPS["C13"]["level_text"] = ("Partial proof: the planner half (the plan names only enabled modes) is a theorem about the planner model for all inputs;"
+    " that the encoder latches exactly as planned and that end-of-data fallbacks stay within ASCII is exploration with the reference decoder as oracle.")
+PROPS["C18"]["level_text"] = ("Partial proof: plan shape (enabled modes only, positions non-increasing ending at 0) and planner totality are theorems"
+    " about the planner model; agreement of latches and predicted size with the encoder is exploration with oracle plus planner/encoder model correspondence.")
+PROPS["C11"]["level_text"] = ("Partial proof: the planner never panics and always terminates (theorem over the planner model, all inputs);"
+    " macro slicing never panics (C16 macro_total); the mode encoders are covered by encoder-model correspondence including injected plans; the rest is exploration under catch_unwind.")
